@@ -88,9 +88,9 @@ CHECKS = {
     ),
     "C15": dict(
         category="other",
-        text="For every float field the 12 text writers print (format specs re-extracted from the source on every run) a rounding inequality decides that text -> float -> unit factor -> inverse unit factor -> text is the identity: values printed as stored are idempotent after one cycle, values behind a unit factor need 6.02 u B < 10^-d (fixed point, B = what the column holds) or 30.1 u < 0.5 10^-d (scientific); unit factors must be iodata.utils constants with the inverse operation in the reader; no thousands separators. The margin lemma behind the two inequalities is machine-checked on every run (pyvc/rounding.py: z3 over exact rationals, one instance per precision and column bound in use, under the model fl(x) = x(1+d), |d| <= 2^-53); the idempotence lemma for values printed as stored is a hand argument sampled on every run, not proved. Bounded: three save/reload generations of generated objects and of every corpus file converted to every format that accepts it; generation 2 must equal generation 1 bit for bit (sha256 over dtype/shape/bytes of all attributes) and file 3 must equal file 2 byte for byte. Open known finding: POSCAR prints 16 decimals behind a unit factor / matrix product and drifts in the last digit (6 obligations + 6 bounded groups).",
+        text="For every float field the 12 text writers print (format specs re-extracted from the source on every run) a rounding inequality decides that text -> float -> unit factor -> inverse unit factor -> text is the identity: values printed as stored are idempotent after one cycle, values behind a unit factor need 6.02 u B < 10^-d (fixed point, B = what the column holds) or 30.1 u < 0.5 10^-d (scientific); unit factors must be iodata.utils constants with the inverse operation in the reader; no thousands separators. The margin lemma behind the two inequalities is machine-checked on every run (pyvc/rounding.py: z3 over exact rationals, one instance per precision and column bound in use, under the model fl(x) = x(1+d), |d| <= 2^-53); values printed as stored are under lemma.round.bare-fixed (fixed point, z3) or the mantissa lemma (scientific, <= 15 digits; 16 digits are refuted, >= 17 digits rest on the classical identification result, trusted). Bounded: three save/reload generations of generated objects and of every corpus file converted to every format that accepts it; generation 2 must equal generation 1 bit for bit (sha256 over dtype/shape/bytes of all attributes) and file 3 must equal file 2 byte for byte. Open known finding: POSCAR prints 16 decimals behind a unit factor / matrix product and drifts in the last digit (6 obligations + 6 bounded groups).",
         design_ref="DESIGN.md 6/C15",
-        note="trusted: correctly rounded float()/format(), standard floating-point error model for float()/*// (margin lemma proved under it by z3), bare print/parse/print lemma (sampled only), readers apply no arithmetic besides unit factors (Molden/Molekel fixes, WFN/WFX scales, json: bounded only)",
+        note="trusted: correctly rounded float()/format(), standard floating-point error model for float()/*// (margin lemma proved under it by z3), float() nearest / format() half-even, 17 digits identify a double, readers apply no arithmetic besides unit factors (Molden/Molekel fixes, WFN/WFX scales, json: bounded only)",
         technique="per-field stability contracts generated from the writers' format specs (rounding inequalities, each tied to a z3-discharged instance of the rounding lemma over exact rationals) + unit-factor inverse obligations + bounded three-generation cycles with bit/byte comparison",
     ),
     "C03": dict(
